@@ -57,8 +57,9 @@ Theorem C03_extrap_linear_continuous : forall n k, (1 <= k < n)%nat ->
     (forall xs, 1 < xs -> bspline_scaled Rfops n k false xs = Some (vadd Rrops (vscale Rrops (xs - 1) g1) b1)).
 Proof. exact extrap_linear_continuous. Qed.
 Print Assumptions C03_extrap_linear_continuous.
-(* _partial (stretch goal of DESIGN section 7 not proved): that the slopes g0, g1 equal the one-sided derivatives of the
-   interior polynomial pieces at the boundary (B-spline derivative formula).  It is probed numerically by the harness. *)
+(* That the slopes g0, g1 are, column by column, the one-sided derivatives at the boundary of the interior polynomial pieces
+   (the stretch goal of DESIGN section 7, formerly a _partial note here) is proved in Props/C05.v:
+   C05_continuation_slope_is_boundary_derivative (derivable_pt_lim of every column of the boundary pieces at 0 and 1). *)
 
 (* periodic basis (after the repair of S10, /repo f738620: the wrapped x is clipped to the right edge): for EVERY order,
    size (n >= k+1) and x the code returns a row; it has n non-negative entries summing to one *)
@@ -128,6 +129,26 @@ Theorem C03_edge_knots_categorical : forall col lo hi, gen_edge_knots Rfops true
   In (lo + / 2) col /\ In (hi - / 2) col /\ Forall (fun v => lo + / 2 <= v <= hi - / 2) col.
 Proof. exact gen_edge_knots_categorical. Qed.
 Print Assumptions C03_edge_knots_categorical.
+
+(* SplineTerm.compile (after /repo e1fa477), as a function of the history of compiles of one term object (refits, shared
+   terms): knots not given by the user come from the data of the LAST compile only -- hence they are its (min, max) --,
+   knots given through edge_knots= are kept across every compile, and compiling again on the same data changes nothing *)
+Theorem C03_compile_default_knots_from_last_data : forall cat cols col,
+  spline_compile_history Rfops None cat (cols ++ [col]) = gen_edge_knots Rfops cat col.
+Proof. exact compile_history_default. Qed.
+Print Assumptions C03_compile_default_knots_from_last_data.
+Theorem C03_compile_default_knots_min_max : forall cols col lo hi,
+  spline_compile_history Rfops None false (cols ++ [col]) = Some (lo, hi) ->
+  In lo col /\ In hi col /\ Forall (fun v => lo <= v <= hi) col.
+Proof. exact compile_history_default_min_max. Qed.
+Print Assumptions C03_compile_default_knots_min_max.
+Theorem C03_compile_keeps_user_knots : forall e cat cols, spline_compile_history Rfops (Some e) cat cols = Some e.
+Proof. exact compile_history_given. Qed.
+Print Assumptions C03_compile_keeps_user_knots.
+Theorem C03_compile_idempotent : forall user cat cols col,
+  spline_compile_history Rfops user cat ((cols ++ [col]) ++ [col]) = spline_compile_history Rfops user cat (cols ++ [col]).
+Proof. exact compile_history_idempotent. Qed.
+Print Assumptions C03_compile_idempotent.
 
 (* the rational instance evaluated by the correspondence check denotes the real instance the theorems are about *)
 Theorem C03_model_transfer : forall (ek0 ek1 : Q) n k periodic (x : Q),
